@@ -990,4 +990,74 @@ theorem bodyLines_image (b : SBlock) (n : Nat) (inds : List Str) (h : WfSBlock b
     | some r => simp [serializeTag_image r _ (h.returns r hr), returnsLine]
 
 
+/-! ### indentation in front of a parameter / tag line -/
+
+/-- all group positions moved `k` columns to the right -/
+def shiftGroups (k : Nat) (g : List Group) : List Group := g.map (fun e => (e.1, e.2.1 + k, e.2.2 + k))
+
+theorem countWs_append_ws (ws line : Str) (h : ∀ c ∈ ws, isSpace c = true) :
+    countWs (ws ++ line) = ws.length + countWs line := by
+  induction ws with
+  | nil => simp
+  | cons c cs ih =>
+    simp only [List.cons_append, countWs, countWhile, h c (by simp), if_true, List.length_cons]
+    have := ih (fun x hx => h x (by simp [hx]))
+    simp only [countWs] at this
+    omega
+
+theorem trimmedSpan_shift (k off : Nat) (s : Str) :
+    trimmedSpan (off + k) s = ((trimmedSpan off s).1 + k, (trimmedSpan off s).2 + k) := by
+  simp only [trimmedSpan]
+  congr 1 <;> omega
+
+theorem matchParameter_indent (ws line : Str) (h : ∀ c ∈ ws, isSpace c = true) :
+    matchParameter (ws ++ line) = (matchParameter line).map (shiftGroups ws.length) := by
+  unfold matchParameter
+  rw [countWs_append_ws ws line h]
+  simp only []
+  rw [drop_len_add]
+  split
+  · rename_i rest hd
+    split
+    · rfl
+    · rename_i n e halt
+      have hdrop : (ws ++ line).drop (ws.length + countWs line + 1 + e) = line.drop (countWs line + 1 + e) := by
+        rw [show ws.length + countWs line + 1 + e = ws.length + (countWs line + 1 + e) by omega, drop_len_add]
+      have e1 : ws.length + countWs line + 1 = countWs line + 1 + ws.length := by omega
+      have e2 : countWs line + 1 + ws.length + n = countWs line + 1 + n + ws.length := by omega
+      have e3 : countWs line + 1 + ws.length + e = countWs line + 1 + e + ws.length := by omega
+      rw [hdrop, e1, e2, e3, trimmedSpan_shift]
+      rfl
+  · rfl
+
+theorem matchTagFrom_indent (ws line : Str) (a : Nat) : ∀ (ts : List String),
+    matchTagFrom (ws ++ line) (ws.length + a) ts = (matchTagFrom line a ts).map (shiftGroups ws.length)
+  | [] => rfl
+  | t :: ts => by
+    rw [matchTagFrom, matchTagFrom, drop_len_add]
+    split
+    · split
+      · rename_i e he
+        have hdrop : (ws ++ line).drop (ws.length + a + t.length + e) = line.drop (a + t.length + e) := by
+          rw [show ws.length + a + t.length + e = ws.length + (a + t.length + e) by omega, drop_len_add]
+        have e1 : ws.length + a = a + ws.length := by omega
+        have e2 : a + ws.length + t.length = a + t.length + ws.length := by omega
+        have e3 : a + t.length + ws.length + e = a + t.length + e + ws.length := by omega
+        rw [hdrop, e1, e2, e3, trimmedSpan_shift]
+        rfl
+      · exact matchTagFrom_indent ws line a ts
+    · exact matchTagFrom_indent ws line a ts
+
+theorem matchTag_indent (ws line : Str) (h : ∀ c ∈ ws, isSpace c = true) :
+    matchTag (ws ++ line) = (matchTag line).map (shiftGroups ws.length) := by
+  unfold matchTag
+  rw [countWs_append_ws ws line h]
+  exact matchTagFrom_indent ws line _ _
+
+theorem matchEmpty_indent (ws line : Str) (h : ∀ c ∈ ws, isSpace c = true) : matchEmpty (ws ++ line) = matchEmpty line := by
+  simp only [matchEmpty, List.all_append]
+  have : ws.all isSpace = true := List.all_eq_true.mpr h
+  simp [this]
+
+
 end GIVerif.AnnParse
